@@ -105,6 +105,15 @@ PeerConnection<type>::receive_keepalive() {
   if (type != Download::CONNECTION_LEECH)
     return true;
 
+  // A block that was requested more than 10 minutes ago and is still being received is being trickled (or
+  // the peer pads a piece message to look alive). While such a transfer leads its block, every transfer
+  // with different data is marked dissimilar and barred, and the leader is never demoted as long as its
+  // connection lives: drop the peer, Block::erase then promotes a follower or gives the barred ones
+  // another shot.
+  if (request_list()->is_downloading() && request_list()->transfer()->is_valid() &&
+      this_thread::cached_seconds().count() - request_list()->transfer()->request_time() > 600)
+    return false;
+
   m_tryRequest = true;
 
   // Stall pieces when more than one receive_keepalive() has been
